@@ -31,7 +31,7 @@ def one(d, allprops, binp, props_override):
         rules = set()
         props = props_override or (PROPS if allprops else [prop])
         for q in props:
-            r = subprocess.run([binp, "-prop", q, "-tier", "quick", "-noevidence", "-repo", wt, "-verif", VERIF],
+            r = subprocess.run([binp, "-prop", q, "-tier", "quick", "-noevidence", "-repo", wt, "-verif", VERIF] + (["-no-inline"] if os.environ.get("PAR_NO_INLINE") else []),
                                env=ENV, capture_output=True, text=True)
             res[q] = r.returncode
             if r.returncode != 0:
